@@ -180,7 +180,7 @@ TUciPosition ==
        /\ Expect(FenOf(root) = ev.fen, ev, "INFRA/fen-projection", "", [fen |-> ev.fen])
        /\ Expect(Valid(root) /\ LinePlayable(root, ev.moves, 1), ev, "INFRA/uci-line", "", [fen |-> ev.fen])
        /\ LET want == Play(root, ev.moves, 1) IN
-            Expect(ev.fenOut = FenOf(want), ev, "C02/uci-position", IF want.hm >= 128 THEN "clock/int8-wrap" ELSE "", [want |-> FenOf(want), got |-> ev.fenOut])
+            Expect(ev.fenOut = FenOf(want), ev, "C02/uci-position", IF want.hm >= 128 /\ ev.fenOut = FenOf([want EXCEPT !.hm = want.hm - 256]) THEN "clock/int8-wrap" ELSE "", [want |-> FenOf(want), got |-> ev.fenOut])
   /\ UNCHANGED <<gvars, rootBad>>
 
 \* UCI: position + `go depth 1`; a root with legal moves and clock < 100 is answered `bestmove 0000`
